@@ -248,9 +248,35 @@ def run_segments(case):
             'stats': stats, 'violations': violations, 'sample': None}
 
 
+def exact_numbers(case):
+    """the same case on exact time: every number a Decimal / a Fraction (the clock takes any
+    number type that adds and compares; simulations of money or calendars want exact ones)"""
+    import decimal
+    import fractions
+    make = (lambda v: decimal.Decimal(str(v))) if case['index'] % 2 else (
+        lambda v: fractions.Fraction(str(v)))
+
+    def conv(value):
+        if isinstance(value, bool) or value is None or isinstance(value, str):
+            return value
+        if isinstance(value, (int, float)):
+            return make(value)
+        if isinstance(value, list):
+            return [conv(item) for item in value]
+        if isinstance(value, dict):
+            return {key: (item if key in ('seed', 'index', 'handover') else conv(item))
+                    for key, item in value.items()}
+        return value
+    return conv(case)
+
+
 def run_case(case):
     if case['index'] % 12 == 5:
         return run_segments(case)
+    if case['index'] % 12 == 7 and isinstance(case['start'], float) and case['start'] < 1e6 \
+            and not any(value == 'inf' for spec in case['tickers'] for value in (
+                [spec['period'], spec['offset']] + list(spec['durations']))):
+        case = exact_numbers(case)
     sess = Session()
     log = {spec['name']: [] for spec in case['tickers']}
     ends = {spec['name']: None for spec in case['tickers']}
